@@ -136,6 +136,10 @@ func (s *Staking) Plan(c *Ctx) []hist.TxSpec {
 	case 2:
 		s.firstUn = c.H
 		out = append(out, s.unstake(c, vals[0], 600, "validator unstakes part"))
+		if len(vals) > 2 && !s.Exit {
+			// (the same by a validator the evidence script leaves alone: an open allegation blocks unstakes)
+			out = append(out, s.unstake(c, vals[2], 500, "another validator unstakes part"))
+		}
 		if !s.Exit && len(cands) > 3 {
 			// the first validator's stake address also funds a candidate, with three times as much (the evidence
 			// script finds the first validator guilty soon after: the cut is a share of its own stake)
@@ -160,6 +164,9 @@ func (s *Staking) Plan(c *Ctx) []hist.TxSpec {
 		// a second unstake of the same stake address while the first one is still maturing: it has its own unlock height
 		s.secondUn = c.H
 		out = append(out, s.unstake(c, vals[0], 150, "second unstake while the first is still maturing"))
+		if len(vals) > 2 {
+			out = append(out, s.unstake(c, vals[2], 170, "second unstake of another validator while its first is still maturing"))
+		}
 		return out
 	}
 	if s.n == 5 && !s.Exit && len(cands) > 2 {
@@ -181,6 +188,13 @@ func (s *Staking) Plan(c *Ctx) []hist.TxSpec {
 		s.swept = true
 		if b := BoundedOf(c.S, vals[0].Stake.Addr); b.Sign() > 0 {
 			out = append(out, s.withdraw(c, vals[0], b.Int64(), "withdraw all that is withdrawable right after the first unstake matured"))
+		}
+		if len(vals) > 2 {
+			if b := BoundedOf(c.S, vals[2].Stake.Addr); b.Sign() > 0 {
+				out = append(out, s.withdraw(c, vals[2], b.Int64(), "withdraw all that is withdrawable right after the first unstake matured (another validator)"))
+			}
+		}
+		if len(out) > 0 {
 			return out
 		}
 	}
